@@ -16,7 +16,8 @@ import casecheck
 from casecheck import Spec
 
 FAULTS = {"refused": "FRefused", "reset": "FReset", "e500": "F500", "e503": "F503",
-          "malformed": "FMalformed", "truncated": "FTruncated", "slow": "FSlow"}
+          "malformed": "FMalformed", "truncated": "FTruncated", "slow": "FSlow",
+          "stallbody": "FSlow"}   # headers sent, body stalled: costs the client's overall timeout, like an answer that never starts
 DOCS = {"doc1": "D1", "doc2": "D2", "doc3": "D3", "partial": "DP", "empty": "DE"}
 PATHS = {"gated": "PGated", "excluded": "PExcluded", "callback": "PCallback"}
 BUDGET = 5
